@@ -21,7 +21,7 @@ RULE = (
     "Hypothesis-generated cases per class (5 classes): shape chosen so that byte sizes are mostly odd (width*depth*itemsize not a multiple of "
     "8; heavy-hitter key area not a multiple of 4), an owner created with shared_memory=True (by the constructor, or by <Class>.load(file, shared_memory=True)), an ordinary in-memory twin, and up to 2 views "
     "attached through attach_existing_shm on a fresh object (one in four of them itself created with shared_memory=True: its own block must go when it is dropped, the owner's must stay) or helpers.attach_shared_memory(type, owner.args, owner.shm.name); a generated "
-    "sequence of steps (add / update(list|dict) / add_ngram / merge of two handles of the same block into each other (twin: sketch.merge(sketch)) / attach with a first attempt that fails with OSError and is retried / merge of another sketch (ordinary, or itself in shared memory and reached through an attached view, as parallel_merging does) / attach a view / drop a view) each routed to the owner "
+    "sequence of steps (add / update(list|dict) / update() fed an iterable that raises part-way / add_ngram / merge of two handles of the same block into each other (twin: sketch.merge(sketch)) / attach with a first attempt that fails with OSError and is retried / merge of another sketch (ordinary, or itself in shared memory and reached through an attached view, as parallel_merging does) / attach a view / drop a view) each routed to the owner "
     "or to any view and mirrored on the twin (same planted draws for log types); finally the handles are dropped in a generated order (owner "
     "last, or owner first while views still exist). Oracle after every step: owner, every view and the twin agree on tables, n_added/n_records "
     "and on queries asked through EVERY handle (count-min: all universe keys; heavy hitters: hh[key], query(inf,0), query(inf,1), query(3,None); "
@@ -55,7 +55,7 @@ def cases(draw):
     H = st.integers(0, 2)  # handle index, taken modulo the number of live handles
     steps = []
     for _ in range(draw(st.integers(2, 14))):
-        k = draw(st.sampled_from(["add", "add", "add", "update_list", "update_dict", "add_ngram", "merge_in", "merge_own_view", "attach", "attach", "drop_view"]))
+        k = draw(st.sampled_from(["add", "add", "add", "update_list", "update_interrupted", "update_dict", "add_ngram", "merge_in", "merge_own_view", "attach", "attach", "drop_view"]))
         s = {"op": k, "via": draw(H)}
         if k == "add":
             s["k"], s["v"] = draw(key), draw(val)
@@ -64,6 +64,9 @@ def cases(draw):
             if s["keys"] and draw(st.integers(0, 5)) == 0:  # one call with hundreds of entries (repeated, non-adjacent keys)
                 n = draw(st.sampled_from([255, 256, 257, 300, 1024]))
                 s["keys"] = [s["keys"][t % len(s["keys"])] for t in range(n)]
+        elif k == "update_interrupted":  # the iterable raises after `at` keys; the caller catches that
+            s["keys"] = draw(st.lists(key, min_size=1, max_size=6))
+            s["at"] = draw(st.integers(0, len(s["keys"])))
         elif k == "update_dict":
             s["items"] = [[x, draw(val)] for x in draw(st.lists(key, max_size=3, unique=True))]
         elif k == "add_ngram":
@@ -127,6 +130,10 @@ def attach(cfg, owner, how, fail_first=False, own_names=None):
     return v
 
 
+class _Interrupted(Exception):
+    pass
+
+
 def act(sk, kind, s):
     if kind in ("log8", "log16") and "draws" in s:
         plant(sk, s["draws"])
@@ -135,6 +142,21 @@ def act(sk, kind, s):
         sut(sk.add, s["k"], s["v"])
     elif op == "update_list":
         sut(sk.update, list(s["keys"]))
+    elif op == "update_interrupted":
+        def gen():
+            for t, x in enumerate(s["keys"]):
+                if t == s["at"]:
+                    raise _Interrupted()
+                yield x
+            if s["at"] >= len(s["keys"]):
+                raise _Interrupted()
+
+        try:
+            sk.update(gen())
+        except _Interrupted:
+            pass
+        except Exception as e:  # noqa
+            raise Violation(f"update() turned the iterable's own exception into {type(e).__name__}: {e}", "sut-exception")
     elif op == "update_dict":
         sut(sk.update, {k: v for k, v in s["items"]})
     elif op == "add_ngram":
